@@ -181,7 +181,7 @@ def Sorter.onTierUpdate (s : Sorter) (name : String) (v : Option (Option Int × 
     | none => (s, false)
     | some t =>
       let st := btDelete tierLess t.key s.sortedTiers
-      let t' := { t with valid := false, order := none }
+      let t' := { t with valid := false, order := none, defaultAction := "" }
       if t.policies.isEmpty then ({ tiers := mdel name s.tiers, sortedTiers := st }, true)
       else ({ tiers := mset name t' s.tiers, sortedTiers := btInsert tierLess t'.key st }, true)
 
@@ -241,7 +241,9 @@ def Resolver.step (r : Resolver) : Event → Resolver
     { r with matched := sadd (p, e) r.matched, dirty := sadd e r.dirty }
   | .matchStopped p e =>
     let r := { r with matched := sdel (p, e) r.matched }
-    let r := if !r.polHasMatch p then { r with sorter := (r.sorter.updatePolicy p none).1 } else r
+    -- last match stopped: drop from the sorter and drop any update still waiting for the next flush
+    let r := if !r.polHasMatch p then
+        { r with sorter := (r.sorter.updatePolicy p none).1, pending := sdel p r.pending } else r
     { r with dirty := sadd e r.dirty }
 
 /-- The tier list `sendEndpointUpdate` builds for one endpoint from `sortedTierData`. -/
